@@ -428,6 +428,27 @@ pub trait InstrFormat {
     fn instr_size(&self, instr: &RawInstr) -> usize { self.instr_header_size() + instr.args_blob.len() }
 }
 
+/// Narrow an instruction header field to the integer type that stores it on disk.
+///
+/// A value that does not fit is an error; it must never be written as a different value.
+pub(crate) fn fit_header_field<T, U>(emitter: &dyn Emitter, what: &str, value: T) -> WriteResult<U>
+where
+    T: Copy + std::fmt::Display,
+    U: TryFrom<T>,
+{
+    U::try_from(value).map_err(|_| {
+        emitter.as_sized().emit(error!("{what} {value} is too large for this instruction format"))
+    })
+}
+
+/// Check that an opcode is not the value that marks the end of a script in this format.
+pub(crate) fn forbid_terminal_opcode(emitter: &dyn Emitter, opcode: raw::Opcode) -> WriteResult {
+    if opcode == 0xFFFF {
+        return Err(emitter.as_sized().emit(error!("opcode {opcode} is reserved for the end-of-script marker in this format")));
+    }
+    Ok(())
+}
+
 #[derive(Debug)]
 pub enum ReadInstr {
     /// A regular instruction was read that belongs in the script.
